@@ -710,8 +710,8 @@ def chain_proofs(ctx):
         ctx.classes["tlaps_obligations_proved"] = ctx.classes.get("tlaps_obligations_proved", 0) + int(m.group(1))
         ctx.classes["tlaps_" + mod[:-4]] = int(m.group(1))
     ctx.assumptions.append("TLAPS 1.6 (SMT back end Z3) checks proofs correctly")
-    ctx.require("tlaps_obligations_proved", 550)
-    ctx.require("tlaps_ChainMessage", 300)
+    ctx.require("tlaps_obligations_proved", 580)
+    ctx.require("tlaps_ChainMessage", 330)
     ctx.require("tlaps_ChainStep", 250)
 
 
